@@ -169,6 +169,7 @@ func loadProgram(repo string, overlay map[string][]byte) *Program {
 		fatalf("only %d module functions in SSA form", len(p.ModFuncs))
 	}
 	sort.Strings(p.AllowedErr)
+	p.resolveRoles()
 	theProg = p
 	return p
 }
@@ -232,7 +233,11 @@ func (p *Program) Func(pkg, name string) *ssa.Function {
 	if sp == nil {
 		return nil
 	}
-	return sp.Func(name)
+	if f := sp.Func(name); f != nil {
+		return f
+	}
+	// renamed since the baseline (roles.go)
+	return roles.funcByName[relPkg(modPkg(pkg))+"\x00\x00"+name]
 }
 
 func modPkg(rel string) string {
@@ -250,16 +255,59 @@ func modPkg(rel string) string {
 
 // Method resolves method `name` of named type `typ` (value or pointer receiver).
 func (p *Program) Method(pkg, typ, name string) *ssa.Function {
+	if f := p.methodExact(pkg, typ, name); f != nil {
+		return f
+	}
+	// renamed, or turned into a function taking the receiver, since the baseline (roles.go)
+	if f := roles.funcByName[relPkg(modPkg(pkg))+"\x00"+typ+"\x00"+name]; f != nil {
+		return f
+	}
+	// reshaped (other parameters): found by what it does
+	if r := roleResolvers[pkg+"."+typ+"."+name]; r != nil {
+		return r(p)
+	}
+	return nil
+}
+
+// roleResolvers: last-resort structural descriptions of unexported subjects whose signature may
+// change in a refactoring (a method turned into a function with explicit dependencies).
+var roleResolvers = map[string]func(p *Program) *ssa.Function{
+	// the function of package server that signs a snapshot: the only one invoking Signer.Sign
+	"server.Sender.doSign": func(p *Program) *ssa.Function {
+		return uniqueFunc(p, "server", func(f *ssa.Function) bool {
+			return len(callsIn(f, func(k *ssa.CallCommon) bool { return k.IsInvoke() && k.Method.Name() == "Sign" })) > 0
+		})
+	},
+}
+
+func uniqueFunc(p *Program, pkg string, pred func(*ssa.Function) bool) *ssa.Function {
+	sp := p.SSAPkg[modPkg(pkg)]
+	var found *ssa.Function
+	for _, f := range p.ModFuncs {
+		if f.Pkg != sp || f.Parent() != nil || f.Synthetic != "" || p.isTestScaffold(f) || !pred(f) {
+			continue
+		}
+		if found != nil {
+			return nil
+		}
+		found = f
+	}
+	return found
+}
+
+func (p *Program) methodExact(pkg, typ, name string) *ssa.Function {
 	sp := p.SSAPkg[modPkg(pkg)]
 	if sp == nil {
 		return nil
 	}
-	obj := sp.Pkg.Scope().Lookup(typ)
-	if obj == nil {
-		return nil
+	var tn *types.TypeName
+	if obj := sp.Pkg.Scope().Lookup(typ); obj != nil {
+		tn, _ = obj.(*types.TypeName)
 	}
-	tn, ok := obj.(*types.TypeName)
-	if !ok {
+	if tn == nil {
+		tn = roles.typeByName[relPkg(modPkg(pkg))+"."+typ]
+	}
+	if tn == nil {
 		return nil
 	}
 	for _, t := range []types.Type{tn.Type(), types.NewPointer(tn.Type())} {
@@ -307,6 +355,10 @@ func (p *Program) NamedType(pkg, name string) *types.Named {
 	}
 	obj := sp.Pkg.Scope().Lookup(name)
 	if obj == nil {
+		if tn := roles.typeByName[relPkg(modPkg(pkg))+"."+name]; tn != nil {
+			n, _ := tn.Type().(*types.Named)
+			return n
+		}
 		return nil
 	}
 	n, _ := obj.Type().(*types.Named)
